@@ -110,7 +110,24 @@ def _tname(t):
             'peer': 'a peer-decoded item of peer-chosen type (no str()/int() coercion)'}.get(t, t)
 
 
+def _int_ranges(tree, ob):
+    ''' An integer taken from a peer message and emitted in a signed 32-bit element must have been bounded. '''
+    fv = FuncView(tree, UAGENT, 'Agent._recv_ext_map')
+    for c in method_calls(fv.func, 'polling_received', 'self'):
+        arg = c.args[1] if len(c.args) > 1 else None
+        if not isinstance(arg, ast.Name):
+            continue
+        facts = fv.facts(c) or frozenset()
+        bounded = any(arg.id in t and ('<' in t or '>' in t) and '2 ** 31' in t.replace('2147483648', '2 ** 31').replace('2147483647', '2 ** 31') for (t, p) in facts) or \
+            any(t.startswith('0 <= {} <'.format(arg.id)) and p is True for (t, p) in facts)
+        if bounded:
+            ob.site(UAGENT, c, 'polling_received: the peer-supplied interval is bounded to INT32 before it is emitted')
+        else:
+            ob.violate(UAGENT, fv.qual, src(c)[:70], 'the interval comes from the peer unbounded and is emitted in an INT32 element: 2^31 or more cannot be marshalled and the emission fails in the io callback', c)
+
+
 def c18a(tree, ob):
+    _int_ranges(tree, ob)
     for (rel, clsname) in CLASSES:
         sigs, _m = collect(tree, rel, clsname)
         ob.require(sigs, 'no signals found on ' + clsname)
